@@ -14,7 +14,7 @@ func init() {
 	register(&Def{
 		ID:    "C10",
 		Level: "exploration",
-		Rule: "seeded histories of 50..2000 steps on one pool allocator: get (up to 8 outstanding) / use {AppendSample x k, in-capacity Append, Write, WriteStriped, SetSample anywhere in the capacity through Slice(0,Capacity), same-type conversion into the buffer} / put of the buffer itself or of Slice(0,n) of it (each checkout put at most once) / forced double GC; all 13 element types; allocators with Length 0, 0<Length<Capacity, Length=Capacity and 1..8 channels; run in the plain build (sync.Pool hands a just-Put object back) and under -race (sync.Pool then drops a random quarter of the Puts); " +
+		Rule: "seeded histories of 50..2000 steps on one pool allocator: get (up to 8 outstanding) / use {AppendSample x k, in-capacity Append, Write, WriteStriped, SetSample anywhere in the capacity through Slice(0,Capacity), same-type conversion into the buffer} / put of the buffer itself or of Slice(0,n) of it (each checkout put at most once) / forced double GC; all 13 built-in and 13 named element types; allocators with Length 0, 0<Length<Capacity, Length=Capacity and 1..8 channels; run in the plain build (sync.Pool hands a just-Put object back) and under -race (sync.Pool then drops a random quarter of the Puts); " +
 			"every Get result is compared with a fresh allocation (shape, bit depth, zero over the whole capacity through the hook) and its address interval with those of all outstanding buffers; every outstanding buffer's contents are re-verified after every step; " +
 			"distinct = distinct histories (hash of allocator + operation list); non-trivial = the history contains a Get that returned a previously Put object (identity by pinned header or storage address)",
 		Assume: []string{"which object a Get returns is not asserted, only counted (reuse floor)", "every buffer ever seen is pinned so that addresses are never recycled by the Go allocator"},
@@ -62,7 +62,7 @@ func runC10(c *core.Ctx) {
 	}
 	for hi := 0; hi < hists; hi++ {
 		caseID := fmt.Sprintf("%s/h%d", c.Mode, hi)
-		t := dyn.Types[r.Intn(dyn.NBuiltin)]
+		t := dyn.Types[r.Intn(len(dyn.Types))]
 		al := signal.Allocator{Channels: r.Range(1, 8), Capacity: r.Pick(1, 2, 3, r.Range(4, 32))}
 		if hi%9 == 8 {
 			al.Capacity = r.Range(300, 1200) // large buffers: paths that depend on the size
@@ -92,7 +92,7 @@ func runC10(c *core.Ctx) {
 func c10History(c *core.Ctx, r *core.Rand, t *dyn.TypeOps, al signal.Allocator, steps int, caseID string, hi int) {
 	inst := "Pool[" + t.Name + "]"
 	pool := t.PoolAlloc(al)
-	pair := dyn.Pairs[t.ID][t.ID]
+	pair := t.SelfPair
 	conv := sameTypeConv(t)
 	var out []*c10out
 	var pins []dyn.Buf // everything ever seen: addresses cannot be recycled
@@ -258,6 +258,11 @@ func c10History(c *core.Ctx, r *core.Rand, t *dyn.TypeOps, al signal.Allocator, 
 						}
 					}
 				default:
+					if conv == nil { // no same-type conversion instantiated for this (named) type
+						what = "appendsample*1"
+						b.AppendSample(stamp())
+						break
+					}
 					n := r.Range(0, al.Capacity)
 					what = fmt.Sprintf("convert-into(%d frames)", n)
 					src := t.Alloc(signal.Allocator{Channels: al.Channels, Length: n, Capacity: n})
